@@ -131,6 +131,97 @@ url_escapes_ok(const char *s)
 	return (true);
 }
 
+// url_ip4_ok returns true if the n bytes at s are a dotted quad: four decimal
+// numbers 0..255 without leading zeros.
+static bool
+url_ip4_ok(const char *s, size_t n)
+{
+	int parts = 0;
+
+	for (size_t i = 0; i < n;) {
+		int val = 0;
+		int nd  = 0;
+		while ((i < n) && (s[i] >= '0') && (s[i] <= '9')) {
+			if ((nd > 0) && (val == 0)) {
+				return (false); // leading zero
+			}
+			val = (val * 10) + (s[i] - '0');
+			if ((val > 255) || (++nd > 3)) {
+				return (false);
+			}
+			i++;
+		}
+		if (nd == 0) {
+			return (false);
+		}
+		parts++;
+		if (i < n) {
+			if ((s[i] != '.') || (++i == n)) {
+				return (false);
+			}
+		}
+	}
+	return (parts == 4);
+}
+
+// url_ip6_ok returns true if s (the text between the brackets of an IP
+// literal) is an IPv6 address, optionally followed by '%' and a non-empty
+// zone identifier.  This is a check of the syntax only.
+static bool
+url_ip6_ok(const char *s)
+{
+	int    groups = 0;
+	bool   gap    = false; // have seen "::"
+	size_t n;
+
+	if (s[0] == ':') {
+		if (s[1] != ':') {
+			return (false);
+		}
+		gap = true;
+		s += 2;
+	}
+	while ((*s != '\0') && (*s != '%')) {
+		for (n = 0; isxdigit((uint8_t) s[n]); n++) {
+		}
+		if (s[n] == '.') {
+			// dotted quad in place of the last two groups
+			n = strcspn(s, "%");
+			if (!url_ip4_ok(s, n)) {
+				return (false);
+			}
+			groups += 2;
+			s += n;
+			break;
+		}
+		if ((n < 1) || (n > 4)) {
+			return (false);
+		}
+		groups++;
+		s += n;
+		if (*s == ':') {
+			if (s[1] == ':') {
+				if (gap) {
+					return (false);
+				}
+				gap = true;
+				s += 2;
+			} else {
+				s++;
+				if ((*s == '\0') || (*s == '%')) {
+					return (false); // ends in a single ':'
+				}
+			}
+		} else if ((*s != '\0') && (*s != '%')) {
+			return (false);
+		}
+	}
+	if (gap ? (groups > 7) : (groups != 8)) {
+		return (false);
+	}
+	return ((*s == '\0') || (s[1] != '\0'));
+}
+
 nng_err
 nni_url_canonify_uri(char *out)
 {
@@ -513,6 +604,10 @@ nni_url_parse_inline_inner(nng_url *url, const char *raw)
 		}
 		*p++ = '\0';
 		if ((*p != ':') && (*p != '\0')) {
+			return (NNG_EINVAL);
+		}
+		// What stands between the brackets must be an IPv6 address.
+		if (!url_ip6_ok(url->u_hostname)) {
 			return (NNG_EINVAL);
 		}
 	} else {
